@@ -106,6 +106,11 @@ def has_empty_mixed(t):
     return False
 
 
+def fn_list_param(t):
+    t = strip(t)
+    return t[0] == "fn" and any(strip(p)[0] in ("open", "mixed") for p in t[1])
+
+
 def universe(thorough):
     atoms = [INT, FLOAT, STR, BOOL, A, AL]
     d1 = [opt(a) for a in atoms] + [open_(a) for a in atoms]
@@ -116,12 +121,15 @@ def universe(thorough):
           mixed(opt(INT), STR), mixed(open_(INT), open_(INT)), opt(mixed(INT, INT)), mp(STR, opt(INT)),
           mp(STR, open_(INT)), fn([opt(INT)], INT), fn([INT], opt(INT)), fn([open_(INT)], INT),
           fn([mixed(INT, INT)], INT), fn([INT], open_(INT)), open_(AL), opt(AL), opt(A), open_(A), fn([A], A),
-          open_(mixed()), mixed(mixed(INT), STR)]
+          open_(mixed()), mixed(mixed(INT), STR),
+          # function types whose PARAMETER is a list type: the parameter is compared under signature_check, and two
+          # list types reach the list arms with the caller's flags (/repo 4ab7445) -- `[int?...]` is not `[int...]` there
+          fn([open_(opt(INT))], INT), fn([mixed(opt(INT), INT)], INT)]
     if thorough:
         atoms2 = [BYTE, BIGINT, ("class", "B"), ("alias", "Bl", STR)]
         d1 += [opt(a) for a in atoms2] + [open_(a) for a in atoms2] + [mixed(STR, INT), mixed(FLOAT, FLOAT), mp(STR, STR), fn([], None), fn([FLOAT], FLOAT)]
         d2 += [open_(opt(FLOAT)), open_(open_(STR)), open_(mixed(INT, STR)), mixed(opt(INT), opt(INT)), opt(mp(STR, INT)),
-               mp(STR, mixed(INT, INT)), fn([open_(opt(INT))], INT), fn([fn([INT], INT)], INT), fn([INT], fn([INT], INT)),
+               mp(STR, mixed(INT, INT)), fn([open_(open_(opt(INT)))], INT), fn([fn([INT], INT)], INT), fn([INT], fn([INT], INT)),
                open_(fn([INT], INT)), mixed(AL, INT), open_(opt(A)), fn([opt(A)], A), opt(open_(opt(INT))),
                open_(open_(opt(INT))), mixed(mixed(INT, INT), mixed(INT, INT)), mp(AL, INT), fn([AL], AL)]
         return atoms + atoms2 + d1 + d2
@@ -249,6 +257,8 @@ def run(ctx, binary):
     if ctx.quick():
         # every pair in at least one context; all six contexts for a seeded half of the pairs
         full = set(ctx.rng.sample(range(len(pairs)), len(pairs) // 2))
+        # fixed family, independent of the seed: function types with a list parameter against each other, every context
+        full |= {i for i, (T, U, _, _) in enumerate(pairs) if fn_list_param(T) and fn_list_param(U)}
     else:
         full = set(range(len(pairs)))
     jobs = []
